@@ -52,6 +52,9 @@ type Solver struct {
 	scopes   []*scope
 }
 
+// SlowLog, if set, is called for queries slower than 2 s.
+var SlowLog func(sec float64, res SatResult, extra []*Term)
+
 var UFs = map[string]*UFSig{}
 var axiomFns []AxiomFn
 
@@ -221,9 +224,7 @@ func (s *Solver) introduce(t *Term) {
 			return
 		}
 		top.seen[x.ID] = true
-		for _, a := range x.Args {
-			visit(a)
-		}
+		// declare the head symbol first (axioms of argument terms may mention this very term)
 		switch x.Op {
 		case "var":
 			n := SymName(x.S)
@@ -231,25 +232,12 @@ func (s *Solver) introduce(t *Term) {
 				s.declared[n] = true
 				s.send(fmt.Sprintf("(declare-fun %s () %s)", n, x.Sort))
 			}
-			if x.Sort == SStr {
-				s.send(fmt.Sprintf("(assert (str.in_re %s %s))", n, bytesRe))
-			}
-			if x.Sort == SInt {
-				if x.lo != nil {
-					s.send(fmt.Sprintf("(assert (>= %s %s))", n, smtInt(x.lo)))
-				}
-				if x.hi != nil {
-					s.send(fmt.Sprintf("(assert (<= %s %s))", n, smtInt(x.hi)))
-				}
-			}
 		case "zeros":
 			n := SymName("zeros!" + fmt.Sprint(x.ID))
 			if !s.declared[n] {
 				s.declared[n] = true
 				s.send(fmt.Sprintf("(declare-fun %s () String)", n))
 			}
-			s.send(fmt.Sprintf("(assert (str.in_re %s (re.* (str.to_re \"\\u{0}\"))))", n))
-			s.send(fmt.Sprintf("(assert (= (str.len %s) %s))", n, x.Args[0].String()))
 		case "app":
 			n := SymName(x.S)
 			if !s.declared[n] {
@@ -264,6 +252,32 @@ func (s *Solver) introduce(t *Term) {
 				}
 				s.send(fmt.Sprintf("(declare-fun %s (%s) %s)", n, strings.Join(as, " "), sig.Res))
 			}
+		}
+		for _, a := range x.Args {
+			visit(a)
+		}
+		switch x.Op {
+		case "var":
+			n := SymName(x.S)
+			if x.Sort == SStr {
+				s.send(fmt.Sprintf("(assert (str.in_re %s %s))", n, bytesRe))
+				if k, ok := fixedLenOfVar(x.S); ok {
+					s.send(fmt.Sprintf("(assert (= (str.len %s) %d))", n, k))
+				}
+			}
+			if x.Sort == SInt {
+				if x.lo != nil {
+					s.send(fmt.Sprintf("(assert (>= %s %s))", n, smtInt(x.lo)))
+				}
+				if x.hi != nil {
+					s.send(fmt.Sprintf("(assert (<= %s %s))", n, smtInt(x.hi)))
+				}
+			}
+		case "zeros":
+			n := SymName("zeros!" + fmt.Sprint(x.ID))
+			s.send(fmt.Sprintf("(assert (str.in_re %s (re.* (str.to_re \"\\u{0}\"))))", n))
+			s.send(fmt.Sprintf("(assert (= (str.len %s) %s))", n, x.Args[0].String()))
+		case "app":
 			if x.Sort == SStr {
 				if k, ok := ufFixedLen[x.S]; ok {
 					s.send(fmt.Sprintf("(assert (= (str.len %s) %d))", x.String(), k))
@@ -302,8 +316,12 @@ func (s *Solver) CheckSat(extra []*Term, wantModel []*Term) (SatResult, map[int]
 	t0 := time.Now()
 	s.send("(check-sat)")
 	res := s.readResult()
-	s.Seconds += time.Since(t0).Seconds()
+	dt := time.Since(t0).Seconds()
+	s.Seconds += dt
 	s.Queries++
+	if dt > 2 && SlowLog != nil {
+		SlowLog(dt, res, extra)
+	}
 	var model map[int]string
 	switch res {
 	case Sat:
